@@ -302,6 +302,24 @@ func runC06(t *sim.T, tier string) *sim.Violation {
 				return &sim.Violation{Class: class, Signature: sig, Detail: fmt.Sprintf("op %d (%s): repetition %d of the same fresh parse differs from repetition 0: %s", k, in.desc, r, sim.FirstDiff(first, fs))}
 			}
 		}
+		// (5) documented equivalences between option values: a nil timezone means UTC, a nil extension
+		// means no extension
+		if in.kind == 0 && (specs[obj].TZ <= 1 || specs[obj].Kind <= 1) {
+			eq := specs[obj]
+			if eq.TZ <= 1 {
+				eq.TZ = 1 - eq.TZ
+			}
+			if eq.Kind <= 1 {
+				eq.Kind = 1 - eq.Kind
+			}
+			es, en, ok3, _ := parse(in, eq.Fresh(), inherit)
+			if ok3 && first != "" && es != first {
+				_, sig := classify(first, es, firstN, en)
+				sig = strings.Replace(strings.Replace(sig, "C06:content:", "C06:equivalent-options:", 1), "C06:order:", "C06:equivalent-options-order:", 1)
+				return &sim.Violation{Class: "equivalent-options", Signature: sig, Detail: fmt.Sprintf("op %d (%s): options %s and the documented-equivalent %s give different results: %s", k, in.desc, specs[obj], eq, sim.FirstDiff(first, es))}
+			}
+			t.Probe("equivalent-options-compared")
+		}
 		t.Extra["sub_evaluations"] += R
 	}
 	reused := false
